@@ -471,6 +471,15 @@ class CFG:
     def dominates(self, a, b):
         return a in self.dominators(b)
 
+    def dominates_under(self, a, b, edge_ok=None):
+        """a dominates b in the sub-graph of edges accepted by edge_ok
+        (b unreachable from entry once a is removed)."""
+        if a is b:
+            return True
+        if b not in self.reachable(self.entry, edge_ok=edge_ok):
+            return True     # vacuous: b infeasible on this partition
+        return b not in self.reachable(self.entry, avoid={a}, edge_ok=edge_ok)
+
     def is_reachable(self, node):
         if self._idom is None:
             self._compute_idom()
